@@ -19,6 +19,7 @@
   * `sort_perm` needs the honest-flag hypothesis (`sort_perm_needs_honest_flag`).
   * the quantile theorems need `length ≤ 2^53` even under `Inv` (`inv_alone_does_not_prevent_panic`).
   * `Min()`/`Max()` of an empty dataset panic in Go (`min_max_empty_panic`).
+  * `Sum()` depends on the insertion order (`sum_is_order_dependent`); every other answer does not.
   * the lower quantile is the element of rank `⌊fl(q·(n−1))⌋` where `fl` is the FLOAT product, which can
     be the next integer above the exact product: `lower_rank_can_round_up` (q = fl(1/3), n = 4).
 -/
@@ -427,6 +428,15 @@ theorem mergeSort_perm_eq (xs ys : List Rat) (h : xs.Perm ys) :
 example (q : F64) :
     (ex.lowerQuantile q).2 = ((ofList [7, 2, 3, 2, -1]).lowerQuantile q).2 :=
   (order_independent [3, -1, 2, 2, 7] [7, 2, 3, 2, -1] (by decide) q).1
+
+/-- `Sum()` is NOT covered by `order_independent`: it is a (Kahan-compensated) float fold in insertion
+    order, and the compensation does not always recover a lost unit -/
+theorem sum_is_order_dependent :
+    (ofList [2 ^ 54, 1, -2 ^ 54]).sum = .fin 0 ∧ (ofList [2 ^ 54, -2 ^ 54, 1]).sum = .fin 1 ∧
+      List.Perm [(2 : Rat) ^ 54, 1, -2 ^ 54] [2 ^ 54, -2 ^ 54, 1] := by
+  refine ⟨?_, ?_, by decide +kernel⟩
+  · unfold Dataset.sum; rw [ofList_values]; decide +kernel
+  · unfold Dataset.sum; rw [ofList_values]; decide +kernel
 
 /-! ### queries are invisible -/
 
